@@ -21,7 +21,10 @@ ASSUMPTIONS = ["tolerance 1e-12 x (|rhs| + |S|) on differences of two operator e
 
 def _src_entry():
     coef = gen.sfloat(-2, 1)
-    return st.one_of(st.none(), st.builds(lambda c0, cx, cq: dict(c0=c0, cx=cx, cq=cq), coef, coef, st.lists(coef, min_size=0, max_size=3)))
+    fresh = st.builds(lambda c0, cx, cq: dict(c0=c0, cx=cx, cq=cq), coef, coef, st.lists(coef, min_size=0, max_size=3))
+    table = st.builds(lambda c0, cx: dict(c0=c0, cx=cx, mode="table"), coef, coef)         # a stored array, the same object at every call
+    view = st.builds(lambda j: dict(mode="view", var=j), st.integers(0, 1))                 # the source is a conserved variable: returns the state array itself
+    return st.one_of(st.none(), fresh, fresh, table, view)
 
 
 def _bcpair(md):
@@ -104,6 +107,14 @@ def check_sources(case):
         require(err[k] <= tol[k], "source-added-once", "equation %d, cell %d: rhs_with - rhs_without = %r, source(x,Q) = %r" % (i, k, float(diff[k]), float(S[k])))
         worst = max(worst, float(np.max(err / (np.abs(r0[i]) + np.abs(S) + 1e-300))))
     target(worst, "source-error")
+    # a second evaluation of the same operator object gives the same result, and a tabulated source is left untouched
+    r2, _ = _rhs(disc1, model1, mesh1, md, prim)
+    for i in range(len(r1)):
+        require(np.array_equal(r1[i], r2[i]), "second-evaluation", "equation %d: the second evaluation of the operator with sources differs from the first by %.3g" % (i, float(np.max(np.abs(r1[i] - r2[i])))))
+    for fn in (model1.source or []):
+        cache = getattr(fn, "cache", None)
+        if cache and "t" in cache:
+            require(np.array_equal(cache["t"], cache["keep"]), "source-table-modified", "the array returned by a tabulated source function was modified by the operator")
     nsrc = sum(1 for d in src if d is not None)
     return dict(nontrivial=nsrc > 0, labels=["model:" + md["name"], "nsrc:%d" % nsrc, "num:" + case["num"]["name"], "bc:" + case["bcL"]["type"], "mesh:" + case["mesh"]["kind"]])
 
